@@ -95,6 +95,11 @@ fn free_stats() -> sched::RunStats {
 }
 
 fn policy_for(rng: &mut Rng) -> Policy {
+    if let Ok(p) = std::env::var("VERIF_POLICY") {
+        // Experiments only: "r<pm>" or "p<d>".
+        let n: u64 = p[1..].parse().unwrap_or(100);
+        return if p.starts_with('r') { Policy::Random(n) } else { Policy::Pct(n as u32, 400) };
+    }
     match rng.below(4) {
         0 => Policy::Random(100),
         1 => Policy::Random(400),
@@ -794,4 +799,156 @@ pub fn c11_schedule(seed: u64, index: u64, rep: &mut Report, free: bool) {
     let sig = fnv(stats.trace_hash, format!("{family}{ring_type}{nwakers}{fill_queue}").as_bytes());
     let sig = if free { fnv(index, format!("{family}{ring_type}{nwakers}free").as_bytes()) } else { sig };
     finish(rep, if free { "c11free" } else { "c11" }, seed, index, &shared, sig, free || stats.switches >= 1 || family == "S2-wake-before-poll", format!("{family} ring={ring_type} wakers={nwakers} sq={sq_size} queue-full={fill_queue} polls={polls_wanted} switches={} kernel-blocks={}", stats.switches, stats.kernel_blocks));
+}
+
+// ---------------------------------------------------------------------------
+// C06/C01: futures dropped on one thread while the ring thread consumes their
+// completions.
+
+pub fn c06_drop_schedule(seed: u64, index: u64, rep: &mut Report, free: bool) {
+    let mut rng = Rng::derive(seed, 0xC06D, index);
+    let nworkers = 1 + rng.below(3) as usize;
+    let ops_per = 1 + rng.below(4) as u64;
+    simk::reset(seed ^ index);
+    alloc::CONSUMER_PHASE_HOLDS.store(false, Ordering::SeqCst);
+    alloc::start_tracking();
+    {
+        let mut k = simk::k();
+        k.knobs.layout_seed = rng.next() | 1;
+        let mut krng = Rng::new(rng.next());
+        // Completes a random subset at every entry, cancels always "win" or are too late at random.
+        k.on_enter = Some(Box::new(move |s, fd| {
+            for id in s.inflight_of(fd) {
+                if krng.chance(1, 2) {
+                    let off = s.req(id).sqe.off();
+                    effects::complete(s, id, 1 + (off % 30) as i32, false);
+                }
+            }
+        }));
+        for _ in 0..16 {
+            let o = match rng.below(3) {
+                0 => simk::CancelOutcome::Cancelled,
+                1 => simk::CancelOutcome::NotFound,
+                _ => simk::CancelOutcome::Already,
+            };
+            k.knobs.cancel_outcomes.push_back(o);
+        }
+    }
+    let mut ring = alloc::a10(|| Ring::config().with_submission_queue_size(*rng.pick(&[2u32, 4, 16])).build()).expect("ring");
+    let sq = ring.sq();
+    let raw = fds::issue("world-fd");
+    let afd: &'static AsyncFd = Box::leak(Box::new(unsafe { AsyncFd::from_raw_fd(raw, sq.clone()) }));
+    let shared = Arc::new(Shared::default());
+    let workers_done = Arc::new(AtomicUsize::new(0));
+    let mut threads: Vec<Box<dyn FnOnce() + Send>> = Vec::new();
+    {
+        let workers_done = workers_done.clone();
+        threads.push(Box::new(move || {
+            let mut polls = 0;
+            loop {
+                sched::point(sched::P_API);
+                let _ = alloc::consumer(|| ring.poll(Some(Duration::ZERO)));
+                polls += 1;
+                if sched::aborted() {
+                    std::mem::forget(ring);
+                    return;
+                }
+                if workers_done.load(Ordering::SeqCst) == nworkers || polls > 20_000 {
+                    break;
+                }
+                sched::yield_now();
+            }
+            // Let everything that is still running finish, then tear down.
+            for _ in 0..4 {
+                {
+                    let mut k = simk::k();
+                    let fd = k.only_ring_fd();
+                    for id in k.inflight_of(fd) {
+                        effects::complete(&mut k, id, -libc::ECANCELED, false);
+                    }
+                }
+                let _ = alloc::consumer(|| ring.poll(Some(Duration::ZERO)));
+            }
+            alloc::consumer(|| drop(ring));
+        }));
+    }
+    for t in 0..nworkers {
+        let shared = shared.clone();
+        let workers_done = workers_done.clone();
+        let mut wrng = Rng::new(rng.next());
+        threads.push(Box::new(move || {
+            let (waker, _ws) = {
+                let _g = MonGuard::new();
+                new_waker()
+            };
+            for j in 0..ops_per {
+                let opid = 3000 + (t as u64) * 100 + j;
+                let mut op = alloc::a10(|| fut_op(afd.read(Vec::with_capacity(32)).from(opid), |r: std::io::Result<Vec<u8>>| match r {
+                    Ok(v) => Outcome::ok(v.len() as i64),
+                    Err(e) => Outcome::err(&e),
+                }));
+                let mut cx = Context::from_waker(&waker);
+                sched::point(sched::P_API);
+                let first = alloc::a10(|| op.poll(&mut cx));
+                // Hang around for a while, maybe poll again, then drop it wherever it is.
+                for _ in 0..wrng.below(4) {
+                    sched::yield_now();
+                }
+                if first.is_pending() && wrng.chance(1, 3) {
+                    let _ = alloc::a10(|| op.poll(&mut cx));
+                }
+                if sched::aborted() {
+                    std::mem::forget(op);
+                    break;
+                }
+                sched::point(sched::P_API);
+                alloc::a10(|| drop(op));
+                shared.resolved.fetch_add(1, Ordering::SeqCst);
+            }
+            drop(waker);
+            workers_done.fetch_add(1, Ordering::SeqCst);
+        }));
+    }
+    let policy = policy_for(&mut rng);
+    let stats = if free {
+        sched::run_free(threads, rng.next());
+        free_stats()
+    } else {
+        sched::run(threads, rng.next(), policy, 200_000)
+    };
+    let aborted = sched::aborted();
+    if !aborted {
+        unsafe { drop(Box::from_raw(std::ptr::from_ref(afd).cast_mut())) };
+        alloc::a10(|| drop(sq));
+    } else {
+        std::mem::forget(sq);
+    }
+    simk::k().sync_fd_events();
+    // Exactly-once reclamation.
+    for v in alloc::take_violations() {
+        let (prop, sig) = match v.kind {
+            alloc::V_FREE_WHILE_HELD => ("C01", format!("free-while-kernel-held:mt:{}", alloc::what::name(v.what))),
+            alloc::V_DOUBLE_FREE => ("C06", "double-free:mt".to_string()),
+            _ => ("C01", "write-after-free:mt".to_string()),
+        };
+        shared.violation(prop, sig, format!("{v:?}"));
+    }
+    let leaks = if aborted {
+        alloc::force_stop_tracking();
+        Vec::new()
+    } else {
+        alloc::end_tracking()
+    };
+    if !leaks.is_empty() && !stats.budget_exhausted && index > 0 {
+        shared.violation("C06", "state-leak:mt", format!("{} block(s) allocated inside a10 (sizes {:?}) are still live after every future, the Ring and all handles were dropped: the state of an operation dropped while its completion was being processed on another thread was never reclaimed", leaks.len(), leaks.iter().map(|l| l.size).take(6).collect::<Vec<_>>()));
+    }
+    alloc::CONSUMER_PHASE_HOLDS.store(true, Ordering::SeqCst);
+    rep.count("sched_switches", stats.switches);
+    rep.count("ops_dropped", shared.resolved.load(Ordering::SeqCst));
+    if stats.budget_exhausted {
+        rep.count("schedules_budget_exhausted", 1);
+    }
+    rep.cell(format!("mt-drop:workers={nworkers}"));
+    let sig = if free { fnv(index, &[nworkers as u8, ops_per as u8, 0xF6]) } else { fnv(stats.trace_hash, &[nworkers as u8, ops_per as u8]) };
+    finish(rep, if free { "c06free" } else { "c06mt" }, seed, index, &shared, sig, free || stats.switches >= 2, format!("mt-drop workers={nworkers} ops/worker={ops_per} switches={}", stats.switches));
 }
